@@ -41,6 +41,7 @@ func runC15(p *eng.Prog, r *eng.Report, tier string) {
 	chanRulesFiltered(c, "C15.5", scope, why, "ibb.")
 	c15Close(c)
 	c15OpenRegistered(c)
+	c15BlockBounded(c)
 	// C15.2 the session id that selects the stream is the payload's own sid
 	ownAttrLookups(c, "C15.2", func(f *eng.Fn) bool { return strings.HasPrefix(f.Short, "ibb.") })
 	c15NewConn(c)
@@ -308,6 +309,40 @@ func c15OpenRegistered(c *cx) {
 		}
 	}
 	c.r.Floor(id, "open requests in ibb.open", n, 1)
+}
+
+// c15BlockBounded: no data packet is larger than the block size. The chain
+// is bufio.Writer(blockSize) -> base64 -> one stanza per write; a bufio.Writer
+// passes a write that is larger than its (empty) buffer straight through, so
+// Conn.Write must not hand it more than Size() bytes in one call: every
+// argument of writeBuf.Write is a prefix cut at Size() or has a dominating
+// fact that its length does not exceed Size().
+func c15BlockBounded(c *cx) {
+	id := "C15.7"
+	f := c.fn(id, "ibb", "(*Conn).Write")
+	if f == nil {
+		return
+	}
+	g := f.Graph()
+	n := 0
+	for _, cl := range f.Calls("bufio.Writer.Write") {
+		if len(cl.Args) != 1 {
+			continue
+		}
+		n++
+		pt, _ := g.Where(cl)
+		size := "bufio.Writer.Size[recv.writeBuf]()"
+		ok := false
+		why := ""
+		if sl, isSl := ast.Unparen(cl.Args[0]).(*ast.SliceExpr); isSl && sl.Low == nil && sl.High != nil && f.Norm(sl.High, &pt) == size {
+			ok = true
+		} else {
+			a := f.Norm(cl.Args[0], &pt)
+			ok, why = g.DominatedAny(pt, []string{"!lt(" + size + ",builtin.len(" + a + "))", "lt(builtin.len(" + a + ")," + size + ")"})
+		}
+		c.r.Check(id, f, "write into the block buffer is at most one block", "G: the argument of writeBuf.Write is b[:Size()] or is dominated by len(arg) <= Size() (a larger write bypasses the buffer and becomes one oversized data packet)", cl.Pos(), ok, why)
+	}
+	c.r.Floor(id, "writes into the block buffer in Conn.Write", n, 1)
 }
 
 func c15Close(c *cx) { c15CloseAs(c, "C15.6") }
